@@ -13,16 +13,18 @@ from pv.runner import Res
 ID = "C11"
 RULE = ("token trees (exhaustive up to a node bound over tokens a/B/?x, random beyond with PDDL's token "
         "alphabet) rendered with generated separators (space, tab, LF, CRLF, comments at line end / own line / "
-        "between tokens, optional gaps next to parentheses) and letter-case modes, read from string and from "
+        "between tokens with generated comment text incl. control and non-ASCII characters, optional gaps next to parentheses) and letter-case modes, read from string and from "
         "file; plus every single parenthesis deletion/insertion and trailing text.  Non-trivial = the tree "
         "has depth >= 2 and the text uses >= 2 distinct separators, or the text is a malformed variant. "
         "Distinct by (text, mode).")
-ASSUMPTIONS = ["ASCII input; blanks are space, tab, CR, LF; a comment always ends with LF",
+ASSUMPTIONS = ["tokens are ASCII; blanks are space, tab, CR, LF; a comment runs to the next LF and may hold any character but LF / lone CR",
                "a bare top-level token (no parentheses) is not generated: the statement speaks of parenthesised tokens"]
 
 F_TRAILING = "C11-trailing-text"
 TOKS = ["a", "B", "?x"]
 ALPHA = "abcxyzABCXYZ0123456789-_?:=<>+*/."
+# comment text: anything but a line end (LF; a lone CR is a line end for text files, so it is left out too)
+COMMENT_ALPHA = ("abcXYZ019 \t()();;:-_?'\"#|\\.,=" + "\x0b\x0c\x1c\x1d\x1e\x1f\x00\x7f\x85\xa0\u2028\u2029\u00e9\u3000")
 
 
 # ---- the check -------------------------------------------------------------------------------
@@ -57,9 +59,26 @@ def _lib_read(text, mode):
     return lib_call(lambda: PDDLTokenizer(file_path=p).parse())
 
 
+def _lone_cr_in_comment(text):
+    """A CR not followed by LF inside a comment: text files end the line (and the comment) there, strings do
+    not; the statement does not say which, so such texts are outside the check."""
+    in_comment = False
+    for i, c in enumerate(text):
+        if c == "\n":
+            in_comment = False
+        elif c == ";":
+            in_comment = True
+        elif c == "\r" and in_comment and text[i + 1:i + 2] != "\n":
+            return True
+    return False
+
+
 def check_case(case):
     res = Res()
     text = case["text"]
+    if _lone_cr_in_comment(text):
+        res.skipped = "lone-CR-inside-comment(out of scope)"
+        return res
     try:
         exp = sexpr.read(text)
         rejected = None
@@ -131,7 +150,15 @@ def gen(ch, tier):
     nchoices = ch.int(0, 60)
     choices = [ch.int(0, 10) for _ in range(nchoices)]
     lay = sexpr.Layout(choices, ch.int(0, 3))
-    text = sexpr.render(tree, lay)
+
+    def comment():
+        return ";" + "".join(ch.choice(COMMENT_ALPHA) for _ in range(ch.int(0, 14))) + ch.choice(["\n", "\n", "\r\n"])
+    if ch.flag(0.5):
+        mand = sexpr.SEPS + [" " + comment(), "\n" + comment() + "\t", comment(), comment() + comment()]
+        opt = sexpr.OPTIONAL_GAP + [comment(), " " + comment()]
+        text = sexpr.render(tree, lay, mand, opt)
+    else:
+        text = sexpr.render(tree, lay)
     mode = ch.choice(["both", "str", "file"])
     kind = ch.weighted([(5, "valid"), (2, "del"), (2, "ins"), (2, "tail")])
     lower_tree = sexpr.read(sexpr.flat(tree))
